@@ -1,4 +1,6 @@
 import Fdo.Cose.Sign1
+import Fdo.Cbor.TypedProofs
+import Fdo.Gen.Schemas
 import Fdo.Cbor.Proofs
 import Fdo.Gen.Cose
 /-
@@ -151,5 +153,21 @@ theorem gen_sigAlgs_table : Fdo.Gen.Cose.sigAlgs =
 example : (match sign1Verify Fdo.Gen.Cose.sigAlgs [(.int 1, .int (-7))] (some [1, 2, 3])
     (List.replicate 64 7) [] (.ec 32) with | .ecdsa 256 _ _ _ => true | _ => false) = true := by
   decide
+
+/-- **A COSE_Sign1 / COSE_Mac0 object is after encoding, transmission and decoding the object that was
+produced**: `cbor.Unmarshal(cbor.Marshal(obj))` yields the same protected and unprotected headers, payload
+and signature/tag (typed round trip of C11 on the regenerated schemas of `cose.Sign1Tag` and `cose.Mac0Tag`),
+so verification on the receiving side asks the primitive about exactly what the sender signed — for every
+conforming object (labels in encoding order with scalar values, byte strings within the limits). -/
+theorem cose_objects_survive_transmission (ok : Fdo.Cbor.CertOracle) (v : Fdo.Cbor.Val) (b : Bytes)
+    (hl : b.length < 18446744073709551616) :
+    (Fdo.Cbor.marshalS Fdo.Gen.Schemas.s_Sign1Tag_Raw_ v = some b →
+      Fdo.Cbor.conf 10000 Fdo.Cbor.maxDepth Fdo.Gen.Schemas.s_Sign1Tag_Raw_ v = true →
+      Fdo.Cbor.unmarshalS ok Fdo.Gen.Schemas.s_Sign1Tag_Raw_ b = some v) ∧
+    (Fdo.Cbor.marshalS Fdo.Gen.Schemas.s_Mac0Tag v = some b →
+      Fdo.Cbor.conf 10000 Fdo.Cbor.maxDepth Fdo.Gen.Schemas.s_Mac0Tag v = true →
+      Fdo.Cbor.unmarshalS ok Fdo.Gen.Schemas.s_Mac0Tag b = some v) :=
+  ⟨fun hm hc => Fdo.Cbor.unmarshalS_marshalS ok _ v b (by decide +kernel) (by decide +kernel) hm hc hl,
+   fun hm hc => Fdo.Cbor.unmarshalS_marshalS ok _ v b (by decide +kernel) (by decide +kernel) hm hc hl⟩
 
 end Fdo.Props.C13
